@@ -1,4 +1,5 @@
 import SSVerif.Model.S3file
+import SSVerif.Model.BinMdef
 import Driver.Util
 /-! driver sub-command `c17`: runs the byte reader / read plans of `Model/S3file` on byte strings
 (hex or a file with an edit list) — same line protocol as `harness/h_c17.c s3`. -/
@@ -166,6 +167,14 @@ def runCase (cache : IO.Ref Cache) (ws : List String) : IO String := do
       let r := mixwPlan s.file gf gd
       pure s!"{id} {showRes r fun o => s!"ok {o.nSen}"} | site={site r}"
     | _, _, _ => pure s!"{id} bad-src"
+  | [id, "mdef", src, ed] =>
+    match ← loadSrc cache src ed with
+    | some s =>
+      let r := mdefPlan s.file
+      pure s!"{id} {showRes r fun o =>
+        let h := o.hdr; let l := o.lay
+        s!"ok {b2s h.swap} {h.nCiphone} {h.nPhone} {h.nEmit} {h.nCiSen} {h.nSen} {h.nTmat} {h.nSseq} {h.nCdTree} {o.sil} {l.treeOff - h.dataOff} {l.phoneOff - h.dataOff} {l.sseqOff - h.dataOff} {mapHash o.cd2cisen} {mapHash o.sen2cimap}"} | site={site r}"
+    | none => pure s!"{id} bad-src"
   | id :: _ => pure s!"{id} bad-op"
   | [] => pure "bad-op"
 
